@@ -111,6 +111,7 @@ DEFAULT_PLAN = {
     "faults": ["cut", "retail", "reloc", "ystop", "eof", "zero", "post", "ilv"],
     "fills": [0],
     "single_cuts": True,      # every single cut point once for each input
+    "n_cover": 0,             # extra inputs aimed at (machine state, byte) pairs (shortest path into a state + one byte)
     "want": ["L2", "LAWS", "MEM", "SPIN"],
 }
 
@@ -160,43 +161,20 @@ def _ctx(unit, comp, inputs_by_sid, lines):
     return c
 
 
-def _simulate_built(unit, P, root, uidx, comp, drv, scratch, res):
+def _phase_a(unit, P, comp, drv, scratch, res, stats, caps, xs, indices, rid0, canons, all_states, rescue):
     meta = comp["meta"]
     flags = meta["flags"]
-    caps = sched.Caps(flags)
-    caps.poison_restart = not INDEX_READ.search(unit["source"])
-    want = set(P["want"])
-    faults = set(P["faults"])
-    stats = {"canonical_runs": 0, "scheduled_runs": 0, "sessions": 0, "api_calls": 0, "bytes_fed": 0, "ticks": 0,
-             "fired": {k: 0 for k in sched.FAULT_KINDS}, "crashes": 0, "canon_unusable": 0,
-             "eof_checked": 0, "post_terminal_calls": 0, "yield_reentries": 0, "calls_compared": 0,
-             "states_total": meta["n_states"], "states_cut": 0, "cov": None, "nontrivial": [],
-             "fail_then_call": 0, "zero_len": 0, "end_after_fail": 0, "zero_after_fail": 0,
-             "exhaustive_inputs": 0, "slow": 0, "spin": 0, "yields_seen": 0, "terminals": {}}
-    res["stats"] = stats
-    rin = sched.rng_for(root, "input", uidx)
-    seeds = [bytes.fromhex(h) for h in unit.get("seeds", [])]
-    xs = inputs_mod.make_inputs(rin, meta["dfa"], P["n_inputs"], P["maxlen"], seeds)
-    for h in unit.get("must_inputs", []):
-        b = bytes.fromhex(h)
-        if b not in xs:
-            xs.append(b)
-    # ---------------- phase A: canonical pass
     runsA = []
     keyA = {}
-    rid = 0
-    for xi, x in enumerate(xs):
+    rid = rid0
+    for xi in indices:
+        x = xs[xi]
         for fill in P["fills"]:
             lines = sched.run_text(rid, {0: x}, sched.canonical_ops(len(x), caps, fill))
             runsA.append((rid, lines))
             keyA[rid] = (xi, fill, lines)
             rid += 1
-    LAST_COV[0] = LAST_COV[1] = 0
     outA = exec_runs(drv, runsA, scratch)
-    canons = {}
-    cut_states = set()
-    all_states = set()
-    rescue = []
     for r_id, (xi, fill, lines) in keyA.items():
         run, crash = outA.get(r_id, (None, ("harness", "missing", "")))
         stats["canonical_runs"] += 1
@@ -246,6 +224,50 @@ def _simulate_built(unit, P, root, uidx, comp, drv, scratch, res):
         if len(res["samples"]) < 2:
             res["samples"].append({"kind": "canonical", "input": xs[xi].hex(), "script_head": lines[:8],
                                    "steps": [(s.i, s.code, s.pos_after, len(s.events)) for s in cn.steps[:12]]})
+
+
+def _simulate_built(unit, P, root, uidx, comp, drv, scratch, res):
+    meta = comp["meta"]
+    flags = meta["flags"]
+    caps = sched.Caps(flags)
+    caps.poison_restart = not INDEX_READ.search(unit["source"])
+    want = set(P["want"])
+    faults = set(P["faults"])
+    stats = {"canonical_runs": 0, "scheduled_runs": 0, "sessions": 0, "api_calls": 0, "bytes_fed": 0, "ticks": 0,
+             "fired": {k: 0 for k in sched.FAULT_KINDS}, "crashes": 0, "canon_unusable": 0,
+             "eof_checked": 0, "post_terminal_calls": 0, "yield_reentries": 0, "calls_compared": 0,
+             "states_total": meta["n_states"], "states_cut": 0, "cov": None, "nontrivial": [],
+             "fail_then_call": 0, "zero_len": 0, "end_after_fail": 0, "zero_after_fail": 0,
+             "exhaustive_inputs": 0, "slow": 0, "spin": 0, "yields_seen": 0, "terminals": {}}
+    res["stats"] = stats
+    rin = sched.rng_for(root, "input", uidx)
+    seeds = [bytes.fromhex(h) for h in unit.get("seeds", [])]
+    xs = inputs_mod.make_inputs(rin, meta["dfa"], P["n_inputs"], P["maxlen"], seeds)
+    for h in unit.get("must_inputs", []):
+        b = bytes.fromhex(h)
+        if b not in xs:
+            xs.append(b)
+    n_regular = len(xs)
+    canons = {}
+    cut_states = set()
+    all_states = set()
+    rescue = []
+    LAST_COV[0] = LAST_COV[1] = 0
+    # ---------------- phase A: canonical pass over the regular inputs, then over state-cover inputs that aim at the
+    # machine states the regular inputs did not rest in (coverage feedback; own PRNG stream; deterministic because
+    # the canonical traces are)
+    _phase_a(unit, P, comp, drv, scratch, res, stats, caps, xs, range(0, n_regular), 0, canons, all_states, rescue)
+    if P["n_cover"]:
+        rest = inputs_mod.resting_states(meta["dfa"])
+        for b in inputs_mod.cover_inputs(sched.rng_for(root, "input-cover", uidx), meta["dfa"], P["n_cover"], P["maxlen"],
+                                         avoid=all_states):
+            if b not in xs:
+                xs.append(b)
+        stats["cover_inputs"] = len(xs) - n_regular
+        if len(xs) > n_regular:
+            _phase_a(unit, P, comp, drv, scratch, res, stats, caps, xs, range(n_regular, len(xs)), 50000, canons, all_states, rescue)
+        stats["states_rest_total"] = len(rest)
+        stats["states_rest_seen"] = len(rest & all_states)
     # ---------------- rescue: the one-byte schedule died (sanitizer report).  For family units the reference model
     # is still checked, against a whole-buffer session, so that the protocol side of the defect is not hidden
     # behind the memory report.
@@ -276,7 +298,11 @@ def _simulate_built(unit, P, root, uidx, comp, drv, scratch, res):
             n = len(x)
             hot = hot_offsets(cn)
             plans = []
-            if n >= 2 and n <= P["exhaustive_n"]:
+            if xi >= n_regular:
+                plans.append(([0, n], {"cut"}))
+                if n >= 2:
+                    plans.append(([0, n - 1, n], {"cut"} | (faults & {"post"})))
+            elif n >= 2 and n <= P["exhaustive_n"]:
                 stats["exhaustive_inputs"] += 1
                 for mask in range(1 << (n - 1)):
                     plans.append((sched.cuts_from_mask(n, mask), {"cut"} | (faults & {"post"})))
@@ -288,7 +314,7 @@ def _simulate_built(unit, P, root, uidx, comp, drv, scratch, res):
                         cps = sorted(rsc.sample(cps, 48))
                     for c in cps:
                         plans.append(([0, c, n], {"cut"}))
-            for _ in range(P["n_sched"]):
+            for _ in range(P["n_sched"] if xi < n_regular else 1):
                 k = rsc.randrange(2, 5)
                 fs = set(rsc.sample(sorted(faults - {"ilv"}), min(k, len(faults - {"ilv"})))) | {"cut"}
                 plans.append((sched.random_cuts(rsc, n, hot=hot), fs))
